@@ -247,6 +247,7 @@ impl GenCfg {
                 set(&mut w, K::Insert, 30);
                 set(&mut w, K::AppendValue, 14);
                 set(&mut w, K::ObsTraverse, 2);
+                set(&mut w, K::TreeMacro, 3);
                 p_tomb = *rng.pick(&[15, 40, 60]);
                 set(&mut w, K::CycleSlot, 2);
                 p_boundary = *rng.pick(&[0, 0, 0, 0, 0, 0, 0, 25]);
@@ -634,7 +635,7 @@ impl Gen {
             }
             K::TreeMacro => {
                 let shape = rng.below(6) as u8;
-                let root = if live_n > 0 && rng.coin() { self.pick_node(rng, m, false) } else { None };
+                let root = if live_n > 0 && rng.coin() { self.pick_node(rng, m, true) } else { None };
                 let cnt = shape_nodes(shape) as u32 + if root.is_none() { 1 } else { 0 };
                 let kbase = self.next_key;
                 self.next_key += cnt.max(1);
